@@ -286,6 +286,9 @@ def run(ctx):
     from props import glue
     glue.wcmatch_every_flag(ctx)
     glue.windows_path_case(ctx)
+    from props import clauses
+    clauses.windows_separators(ctx)
+    clauses.matchbase_inert(ctx)
     return ctx.finish(RULE)
 
 
